@@ -7,6 +7,9 @@ local now = tonumber(ARGV[3])
 local requested = tonumber(ARGV[4])
 local fill_time = capacity/rate
 local ttl = math.floor(fill_time*2)
+if ttl < 1 then
+    ttl = 1
+end
 local last_tokens = tonumber(redis.call("get", KEYS[1]))
 if last_tokens == nil then
     last_tokens = capacity
